@@ -5,15 +5,6 @@ From DustDDS Require Import Base.Machine Xcdr.XcdrBytes Xcdr.XcdrBytesProofs Xcd
 Open Scope Z_scope.
 Ltac Zify.zify_post_hook ::= Z.div_mod_to_equations.
 
-(* ---------------------------------------------------------------- the common subset *)
-Definition is_wstr (t : ty) : bool := match t with TWStr => true | _ => false end.
-(* tbad (C09: union, mutable, XCDR1 float128 / optional) or a wide string (rule (4) is read
-   differently by the specification encoder); float128 in XCDR1 is fine for the WRITER *)
-Definition cbad (V : ver) (t : ty) : bool :=
-  is_union t || is_mutable t || is_wstr t ||
-  (match V with V1 => has_opt_member t | V2 => false end).
-Definition common (V : ver) (t : ty) : bool := wf_ty t && negb (ty_any (cbad V) t).
-
 (* ---------------------------------------------------------------- alignment, primitives *)
 Lemma padlen_mod : forall o a, a = 1 \/ a = 2 \/ a = 4 \/ a = 8 -> padlen o a = (- o) mod a.
 Proof. intros o a H. unfold padlen, align_up. destruct H as [->|[->|[->| ->]]]; lia. Qed.
@@ -82,10 +73,9 @@ Proof.
   induction n; intros; [reflexivity|]. cbn [le_enc]. rewrite pow256_S.
   pose proof (pow256_pos n). f_equal.
   - rewrite Z.rem_mul_r by lia. rewrite (Z.mul_comm 256), Z_mod_plus_full. apply Z.mod_mod. lia.
-  - rewrite <- IHn. rewrite <- (IHn (z / 256)). f_equal.
-    rewrite Z.rem_mul_r by lia.
-    replace (z mod 256 + 256 * ((z / 256) mod pow256 n)) with ((z / 256) mod pow256 n * 256 + z mod 256) by lia.
-    rewrite Z.div_add_l by lia. rewrite (Z.div_small (z mod 256) 256) by lia. lia.
+  - rewrite Z.rem_mul_r by lia. rewrite (Z.mul_comm 256), Z.div_add by lia.
+    rewrite (Z.div_small (z mod 256) 256) by (apply Z.mod_pos_bound; lia).
+    rewrite Z.add_0_l. apply IHn.
 Qed.
 Lemma int_enc_wrap32 : forall E z, int_enc E 4 (wrap_u32 z) = int_enc E 4 z.
 Proof.
@@ -109,3 +99,373 @@ Proof.
   unfold seq2. rewrite u32_spec by lia. cbn [bind]. unfold ret. cbn [bind].
   rewrite !blen_app. f_equal. f_equal. lia.
 Qed.
+
+(* ---------------------------------------------------------------- collections *)
+Lemma prim_elems_spec : forall V E p l,
+  forallb (in_range (prim_sk p)) l = true -> val_nonascii_char (VSeqP (prim_sk p) l) = false ->
+  agrees (ser_list (ser_prim V E (prim_sk p)) l) (cat (PRIM V E p) l).
+Proof.
+  intros V E p l Hr Hn. apply cat_spec. intros z Hz pos.
+  rewrite forallb_forall in Hr. apply ser_prim_spec; [now apply Hr|].
+  intros ->. cbn [prim_sk val_nonascii_char] in Hn.
+  destruct (Z.leb_spec 128 z) as [Hge|]; [|lia].
+  exfalso. assert (existsb (fun z => 128 <=? z) l = true).
+  { apply existsb_exists. exists z. split; [assumption|now apply Z.leb_le]. }
+  congruence.
+Qed.
+
+Lemma raw_u8_cat : forall V E p l, p = PByte \/ p = PU8 ->
+  forallb (in_range KU8) l = true -> forall pos, cat (PRIM V E p) l pos = l.
+Proof.
+  intros V E p l Hp. induction l as [|z r IH]; intros Hr pos; [reflexivity|].
+  cbn [forallb] in Hr. apply andb_prop in Hr as [Hz Hr].
+  assert (Hb : PRIM V E p z pos = [z]).
+  { unfold in_range in Hz. boolZ.
+    assert (Hm : z mod 256 = z) by (apply Z.mod_small; lia).
+    assert (Hs : prim_size p = 1) by (destruct Hp; subst p; reflexivity).
+    unfold PRIM, ALIGN. rewrite Hs.
+    replace (Z.min 1 (MAXALIGN V)) with 1 by (destruct V; reflexivity).
+    rewrite Z.mod_1_r. change (zeros 0) with (@nil Z). change (Z.to_nat 1) with 1%nat.
+    destruct E; cbn [int_enc le_enc rev app]; rewrite Hm; reflexivity. }
+  cbn [cat]. rewrite Hb. cbn [app]. now rewrite IH.
+Qed.
+Lemma raw_u8_spec : forall V E p l, p = PByte \/ p = PU8 ->
+  forallb (in_range KU8) l = true -> agrees (ret l) (cat (PRIM V E p) l).
+Proof. intros V E p l Hp Hr pos. rewrite raw_u8_cat by assumption. reflexivity. Qed.
+
+Definition no_wstr_bad (V : ver) (e : ty) : Prop := cbad V e = false.
+
+Lemma elements_spec : forall V E e (w : val -> bool) fe fu (g : val -> Z -> list Z) v,
+  elem_ok e = true -> cbad V e = false ->
+  elems_wt e w v = true -> val_nonascii_char v = false ->
+  (forall d, w (VData d) = true -> val_nonascii_char (VData d) = false ->
+             agrees (fe (VData d)) (g (VData d))) ->
+  agrees (ser_elements V E e fe fu v) (ELEMS V E e g v).
+Proof.
+  intros V E e w fe fu g v Hok Hb Hw Hn Hfe.
+  destruct e as [p| | |h ls|e'|n e'|x ms|x dd cs]; try discriminate; cbn [elems_wt] in Hw.
+  - destruct v as [| | |k l| |]; try discriminate.
+    apply andb_prop in Hw as [Hk Hr]. apply sk_eqb_eq in Hk. subst k.
+    intros pos. cbn [ser_elements ELEMS]. rewrite sk_eqb_refl.
+    destruct p; try (now apply prim_elems_spec);
+      cbn [prim_sk] in *; apply raw_u8_spec; tauto.
+  - destruct v as [| | | |l|]; try discriminate. intros pos. cbn [ser_elements ELEMS]. revert pos.
+    apply cat_spec. intros s Hs. rewrite forallb_forall in Hw. apply string_spec. now apply Hw.
+  - destruct v as [| | | | |l]; try discriminate. intros pos. cbn [ser_elements ELEMS]. revert pos.
+    apply cat_spec. intros d Hd. rewrite forallb_forall in Hw.
+    apply Hfe; [now apply Hw|]. exact (nonascii_seqdata l Hn d Hd).
+  - destruct v as [| | | | |l]; try discriminate. intros pos. cbn [ser_elements ELEMS]. revert pos.
+    apply cat_spec. intros d Hd. rewrite forallb_forall in Hw.
+    apply Hfe; [now apply Hw|]. exact (nonascii_seqdata l Hn d Hd).
+Qed.
+
+Lemma sequence_spec : forall V E e fe fu g v,
+  seq_length v <= u32_max ->
+  agrees (ser_elements V E e fe fu v) (ELEMS V E e g v) ->
+  agrees (ser_sequence V E e fe fu v) (SEQUENCE V E e g v).
+Proof.
+  intros V E e fe fu g v Hlen Hel.
+  pose proof (seq_length_nonneg v) as Hnn.
+  assert (Hbody : agrees (seq2 (ser_length V E v) (ser_elements V E e fe fu v))
+            (fun o' => PRIM V E PU32 (seq_length v) o' ++
+                       ELEMS V E e g v (o' + blen (PRIM V E PU32 (seq_length v) o')))).
+  { apply seq2_spec; [|exact Hel]. intros pos. unfold ser_length.
+    replace (wrap_u32 (seq_length v)) with (seq_length v)
+      by (unfold wrap_u32, two32; symmetry; apply Z.mod_small; unfold u32_max in *; lia).
+    apply u32_spec. lia. }
+  unfold ser_sequence, SEQUENCE. cbv zeta.
+  destruct e; cbn [is_prim_ty]; try exact Hbody; destruct V; try exact Hbody;
+    apply dheader_spec; exact Hbody.
+Qed.
+
+Lemma array_spec : forall V E e fe fu g v,
+  agrees (ser_elements V E e fe fu v) (ELEMS V E e g v) ->
+  agrees (ser_array V E e fe fu v) (ARRAY V E e g v).
+Proof.
+  intros V E e fe fu g v Hel. unfold ser_array, ARRAY.
+  destruct e; cbn [is_prim_ty]; try exact Hel; destruct V; try exact Hel;
+    apply dheader_spec; exact Hel.
+Qed.
+
+(* ---------------------------------------------------------------- structures *)
+Fixpoint spec_members (V : ver) (E : endian) (d : dyn) (ms : list (minfo * ty)) (o : Z) : list Z :=
+  match ms with
+  | [] => []
+  | (m, t') :: r =>
+    let b := MEMBER V E m (spec_ty V E t') (lookup (m_id m) d) o in b ++ spec_members V E d r (o + blen b)
+  end.
+
+Lemma spec_ty_struct : forall V E x ms v o,
+  spec_ty V E (TStruct x ms) v o =
+  match x with
+  | Final => spec_members V E (dval v) ms o
+  | Appendable => match V with V1 => spec_members V E (dval v) ms o
+                             | V2 => DHEADER V E (spec_members V E (dval v) ms) o end
+  | Mutable => []
+  end.
+Proof.
+  intros. cbn [spec_ty].
+  assert (Hgo : forall ms o,
+    (fix go (ms : list (minfo * ty)) (o : Z) : list Z :=
+       match ms with
+       | [] => []
+       | (m, t') :: r =>
+         let b := MEMBER V E m (spec_ty V E t') (lookup (m_id m) (dval v)) o in b ++ go r (o + blen b)
+       end) ms o = spec_members V E (dval v) ms o).
+  { induction ms0 as [|[m t'] r IH]; intros; [reflexivity|]. cbn [spec_members]. cbv zeta. now rewrite IH. }
+  destruct x; [apply Hgo| |reflexivity].
+  destruct V; [apply Hgo|]. unfold DHEADER. cbv zeta. now rewrite !Hgo.
+Qed.
+
+Definition mem_spec (V : ver) (E : endian) (ms : list (minfo * ty)) (d : dyn) : Prop :=
+  nodup_z (ids ms) = true /\
+  (V = V1 -> Forall (fun mt => m_opt (fst mt) = false) ms) /\
+  Forall (fun mt : minfo * ty =>
+    match lookup (m_id (fst mt)) d with
+    | Some v => agrees (ser_ty V E (snd mt) v) (spec_ty V E (snd mt) v)
+    | None => m_opt (fst mt) = true
+    end) ms.
+
+Lemma fmember_spec : forall V E ms d mt, mem_spec V E ms d -> In mt ms ->
+  agrees (ser_fmember V E (cvS V E ms) d (m_id (fst mt)))
+         (MEMBER V E (fst mt) (spec_ty V E (snd mt)) (lookup (m_id (fst mt)) d)).
+Proof.
+  intros V E ms d mt [Hnd [Hopt1 Hmem]] Hin pos.
+  rewrite Forall_forall in Hmem. specialize (Hmem mt Hin).
+  unfold ser_fmember, MEMBER. rewrite find_cvS by assumption. cbn [fst].
+  destruct (m_opt (fst mt)) eqn:Hopt.
+  - destruct V.
+    { pose proof (Hopt1 eq_refl) as Ho. rewrite Forall_forall in Ho. specialize (Ho mt Hin). congruence. }
+    unfold ser_opt_fmember.
+    destruct (lookup (m_id (fst mt)) d) as [v|] eqn:Hv.
+    + pose proof (ser_prim_spec V2 E PBool 1 pos eq_refl ltac:(discriminate)) as Hb.
+      cbn [prim_sk] in Hb. unfold seq2. rewrite Hb. cbn [bind].
+      unfold ser_value. rewrite find_cvS by assumption. unfold get. rewrite Hv. cbn [bind].
+      rewrite Hmem. cbn [bind]. rewrite blen_app. f_equal. f_equal. lia.
+    + pose proof (ser_prim_spec V2 E PBool 0 pos eq_refl ltac:(discriminate)) as Hb.
+      cbn [prim_sk] in Hb. exact Hb.
+  - destruct (lookup (m_id (fst mt)) d) as [v|] eqn:Hv; [|congruence].
+    unfold ser_value. rewrite find_cvS by assumption. unfold get. rewrite Hv. cbn [bind]. apply Hmem.
+Qed.
+
+Lemma fmembers_spec : forall V E ms d ms2, mem_spec V E ms d -> incl ms2 ms ->
+  agrees (ser_list (fun mx : minfo * (ty * F) => ser_fmember V E (cvS V E ms) d (m_id (fst mx))) (cvS V E ms2))
+         (spec_members V E d ms2).
+Proof.
+  intros V E ms d ms2 HH. induction ms2 as [|[m t'] r IH]; intros Hincl pos.
+  - cbn [cvS map ser_list spec_members]. rewrite blen_nil. f_equal. f_equal. lia.
+  - cbn [cvS map ser_list spec_members fst]. cbv zeta.
+    pose proof (fmember_spec V E ms d (m, t') HH (Hincl _ (or_introl eq_refl)) pos) as Hm.
+    cbn [fst snd] in Hm. rewrite Hm. cbn [bind].
+    fold (cvS V E r). rewrite IH by (intros x Hx; apply Hincl; now right). cbn [bind].
+    rewrite blen_app. f_equal. f_equal. lia.
+Qed.
+
+Lemma struct_spec : forall V E ms d x, mem_spec V E ms d -> x <> Mutable ->
+  agrees (ser_struct_nested V E x (cvS V E ms) d)
+         (spec_ty V E (TStruct x ms) (VData d)).
+Proof.
+  intros V E ms d x HH Hx pos. rewrite spec_ty_struct. cbn [dval].
+  destruct x; [| |congruence]; unfold ser_struct_nested.
+  - apply (fmembers_spec V E ms d ms HH (incl_refl _)).
+  - unfold ser_appendable. destruct V.
+    + apply (fmembers_spec V1 E ms d ms HH (incl_refl _)).
+    + apply dheader_spec. apply (fmembers_spec V2 E ms d ms HH (incl_refl _)).
+Qed.
+
+(* ---------------------------------------------------------------- main induction *)
+Lemma common_members : forall V ms,
+  (fix go (ms : list (minfo * ty)) : bool :=
+     match ms with [] => true | (m, t') :: r => wf_ty t' && go r end) ms = true ->
+  (fix go (ms : list (minfo * ty)) : bool :=
+     match ms with [] => false | (_, t') :: r => ty_any (cbad V) t' || go r end) ms = false ->
+  Forall (fun mt => common V (snd mt) = true) ms.
+Proof.
+  induction ms as [|[m t] r IH]; intros H1 H2; [constructor|].
+  apply andb_prop in H1 as [H1a H1b]. apply orb_false_elim in H2 as [H2a H2b].
+  constructor; [|now apply IH]. cbn [snd]. unfold common. now rewrite H1a, H2a.
+Qed.
+
+Lemma common_struct : forall V x ms, common V (TStruct x ms) = true ->
+  nodup_z (ids ms) = true /\ cbad V (TStruct x ms) = false /\
+  Forall (fun mt => common V (snd mt) = true) ms.
+Proof.
+  intros V x ms H. unfold common in H. apply andb_prop in H as [Hw Ha].
+  apply negb_true_iff in Ha. cbn [wf_ty ty_any] in Hw, Ha.
+  apply orb_false_elim in Ha as [Hb Hg].
+  apply andb_prop in Hw as [Hw Hg']. apply andb_prop in Hw as [Hnd _].
+  repeat split; try assumption. now apply common_members.
+Qed.
+
+Theorem eq_ty : forall V E t, common V t = true ->
+  forall v, wt t v = true -> val_nonascii_char v = false ->
+  agrees (ser_ty V E t v) (spec_ty V E t v).
+Proof.
+  intros V E t. induction t using ty_ind'; intros Hg v Hw Hn.
+  - cbn [wt] in Hw. destruct v as [k z| | | | |]; try discriminate.
+    apply andb_prop in Hw as [Hk Hr]. pose proof (sk_eqb_eq _ _ Hk) as ->.
+    intros pos. cbn [ser_ty spec_ty zval]. rewrite sk_eqb_refl.
+    apply ser_prim_spec; [exact Hr|].
+    intros ->. cbn [prim_sk val_nonascii_char] in Hn. apply Z.leb_gt in Hn. lia.
+  - cbn [wt] in Hw. destruct v as [|s| | | |]; try discriminate.
+    intros pos. cbn [ser_ty spec_ty sval]. now apply string_spec.
+  - exfalso. unfold common in Hg. apply andb_prop in Hg as [_ Hg]. apply negb_true_iff in Hg.
+    apply ty_any_self in Hg. discriminate.
+  - (* enumeration *)
+    assert (Hh : holder_ok h = true).
+    { unfold common in Hg. apply andb_prop in Hg as [Hg _]. cbn [wf_ty] in Hg. now apply andb_prop in Hg as [Hg _]. }
+    cbn [wt] in Hw.
+    destruct v as [| |d| | |]; try discriminate.
+    destruct d as [|[k0 v0] r]; [discriminate|]. destruct k0; try discriminate.
+    destruct v0 as [k z| | | | |]; try discriminate. destruct r; [|discriminate].
+    apply andb_prop in Hw as [Hw Hl]. apply andb_prop in Hw as [Hk Hr].
+    apply sk_eqb_eq in Hk. subst k.
+    intros pos. cbn [ser_ty on_data spec_ty dval zval].
+    pose proof (ser_prim_spec V E h z pos Hr ltac:(destruct h; discriminate)) as Hp.
+    destruct h; try discriminate; cbn [ser_enum get_k lookup Z.eqb sk_eqb bind prim_sk] in *; exact Hp.
+  - (* sequence *)
+    unfold common in Hg. apply andb_prop in Hg as [Hwf Ha]. apply negb_true_iff in Ha.
+    cbn [wf_ty] in Hwf. apply andb_prop in Hwf as [Hok Hwfe].
+    cbn [ty_any] in Ha. apply orb_false_elim in Ha as [_ Hae].
+    assert (Hge : common V t = true) by (unfold common; now rewrite Hwfe, Hae).
+    cbn [wt] in Hw. apply andb_prop in Hw as [Hel Hlen]. apply Z.leb_le in Hlen.
+    destruct (ser_ty_seq V E t) as [fu ->]. cbn [spec_ty].
+    apply sequence_spec; [exact Hlen|].
+    apply (elements_spec V E t (wt t)); try assumption.
+    + now apply ty_any_self.
+    + intros d Hwd Hnd. now apply IHt.
+  - (* array *)
+    unfold common in Hg. apply andb_prop in Hg as [Hwf Ha]. apply negb_true_iff in Ha.
+    cbn [wf_ty] in Hwf. apply andb_prop in Hwf as [Hwf _]. apply andb_prop in Hwf as [Hwf _].
+    apply andb_prop in Hwf as [Hok Hwfe].
+    cbn [ty_any] in Ha. apply orb_false_elim in Ha as [_ Hae].
+    assert (Hge : common V t = true) by (unfold common; now rewrite Hwfe, Hae).
+    cbn [wt] in Hw. apply andb_prop in Hw as [Hel Hlen].
+    destruct (ser_ty_arr V E n t) as [fu ->]. cbn [spec_ty].
+    apply array_spec.
+    apply (elements_spec V E t (wt t)); try assumption.
+    + now apply ty_any_self.
+    + intros d Hwd Hnd. now apply IHt.
+  - (* structure *)
+    destruct (common_struct V x ms Hg) as [Hnd [Hb Hgm]].
+    destruct v as [| |d| | |]; try (cbn [wt] in Hw; discriminate).
+    cbn [wt] in Hw. apply andb_prop in Hw as [Hw Hgo]. apply andb_prop in Hw as [Hs Hk].
+    apply wt_members in Hgo.
+    unfold cbad in Hb. apply orb_false_elim in Hb as [Hb Hb3]. apply orb_false_elim in Hb as [Hb _].
+    apply orb_false_elim in Hb as [_ Hmut].
+    assert (Hx : x <> Mutable) by (intros ->; discriminate).
+    assert (HH : mem_spec V E ms d).
+    { split; [exact Hnd|]. split.
+      - intros ->. cbn [has_opt_member] in Hb3.
+        apply Forall_forall. intros mt Hin.
+        destruct (m_opt (fst mt)) eqn:Hm; [|reflexivity].
+        assert (existsb (fun mx : minfo * ty => m_opt (fst mx)) ms = true)
+          by (apply existsb_exists; now exists mt).
+        congruence.
+      - rewrite Forall_forall in *. intros mt Hin.
+        specialize (H mt Hin). specialize (Hgm mt Hin). specialize (Hgo mt Hin).
+        destruct (lookup (m_id (fst mt)) d) as [v'|] eqn:Hl; [|exact Hgo].
+        apply H; [exact Hgm|exact Hgo|]. exact (nonascii_data d Hn _ _ Hl). }
+    rewrite ser_ty_struct. cbn [on_data]. now apply struct_spec.
+  - exfalso. unfold common in Hg. apply andb_prop in Hg as [_ Hg]. apply negb_true_iff in Hg.
+    apply ty_any_self in Hg. discriminate.
+Qed.
+
+(* ---------------------------------------------------------------- top level *)
+Lemma enc_id_eq : forall V E x, repr_id V E x = ENC_ID V E x.
+Proof. destruct V, E, x; reflexivity. Qed.
+
+Theorem code_eq_spec : forall V E t v,
+  is_aggr t = true -> common V t = true -> wt t v = true -> val_nonascii_char v = false ->
+  encode V E t v = Ok (spec_encode V E t v).
+Proof.
+  intros V E t v Ha Hc Hw Hn. unfold encode, spec_encode. rewrite Ha.
+  rewrite (eq_ty V E t Hc v Hw Hn 0). cbn [bind]. cbv zeta.
+  set (body := spec_ty V E t v 0).
+  assert (Hb : blen ([0; repr_id V E (ty_ext t); 0; 0] ++ body) = 4 + blen body)
+    by (rewrite blen_app; reflexivity).
+  rewrite Hb.
+  assert (Hp : pad_count (4 + blen body) = (- (4 + blen body)) mod 4) by (unfold pad_count; lia).
+  rewrite Hp, enc_id_eq. reflexivity.
+Qed.
+
+Lemma common_tgood : forall V t, common V t = true -> (V = V1 -> ty_any is_f128 t = false) ->
+  tgood V t = true.
+Proof.
+  intros V t Hc Hf. unfold common in Hc. apply andb_prop in Hc as [Hwf Ha]. apply negb_true_iff in Ha.
+  unfold tgood. rewrite Hwf. cbn [andb]. apply negb_true_iff.
+  apply (ty_any_mono (fun t0 => cbad V t0 || (match V with V1 => is_f128 t0 | V2 => false end)) (tbad V)).
+  - intros t0 Hq. unfold tbad, cbad in *. destruct V, (is_union t0), (is_mutable t0), (is_wstr t0),
+      (is_f128 t0), (has_opt_member t0); cbn in *; congruence.
+  - rewrite ty_any_or, Ha. cbn [orb]. destruct V; [now apply Hf|apply ty_any_false].
+Qed.
+
+(* the deserializer accepts what the specification encoder produces *)
+Theorem spec_decodable : forall V E t v,
+  is_aggr t = true -> common V t = true -> (V = V1 -> ty_any is_f128 t = false) ->
+  wt t v = true -> val_nonascii_char v = false ->
+  decode t (spec_encode V E t v) = Ok v.
+Proof.
+  intros V E t v Ha Hc Hf Hw Hn.
+  destruct (roundtrip_tgood V E t v Ha (common_tgood V t Hc Hf) Hw Hn) as [bs [He Hd]].
+  rewrite (code_eq_spec V E t v Ha Hc Hw Hn) in He. inversion He. now subst.
+Qed.
+
+(* ---------------------------------------------------------------- differences (our reading) *)
+Definition differs (V : ver) (E : endian) (t : ty) (v : val) : Prop :=
+  is_aggr t = true /\ wf_ty t = true /\ wt t v = true /\
+  exists bs, encode V E t v = Ok bs /\ bs <> spec_encode V E t v.
+Ltac dif :=
+  unfold differs; do 3 (split; [vm_compute; reflexivity|]);
+  eexists; split; [vm_compute; reflexivity|vm_compute; discriminate].
+
+(* wide string "a": implementation 02 00 00 00 'a' 00 NUL NUL; rule (4) as read: 02 00 00 00 'a' 00 *)
+Lemma diff_wstring : differs V2 LE (TStruct Final [(mk 0, TWStr)]) (VData [(0, VStr [97])]).
+Proof. dif. Qed.
+(* char8 0xE9: implementation writes the two UTF-8 octets c3 a9 *)
+Lemma diff_char8 : differs V2 LE (TStruct Final [(mk 0, TPrim PChar8)]) (VData [(0, VP KChar8 233)]).
+Proof. dif. Qed.
+(* XCDR1 {@optional octet 1; uint64 2}: after the parameter the implementation keeps aligning from the
+   member's origin (7 padding octets), the rule pops the origin (3 padding octets) *)
+Lemma diff_xcdr1_optional_origin :
+  differs V1 LE (TStruct Final [(mko 0, TPrim PU8); (mk 1, TPrim PU64)])
+          (VData [(0, VP KU8 1); (1, VP KU64 2)]).
+Proof. dif. Qed.
+
+(* ---------------------------------------------------------------- outside the classes *)
+Lemma class0_common : forall V t v, wf_ty t = true -> stage2 t = true -> c10_class V t v = 0%N ->
+  common V t = true /\ (V = V1 -> ty_any is_f128 t = false) /\ val_nonascii_char v = false.
+Proof.
+  intros V t v Hwf Hs Hk. unfold c10_class in Hk.
+  destruct (val_nonascii_char v); [discriminate|].
+  destruct (ty_any is_wstr t) eqn:Hw; [discriminate|].
+  unfold stage2 in Hs. apply negb_true_iff in Hs.
+  rewrite ty_any_or in Hs. apply orb_false_elim in Hs as [Hs1 Hs2].
+  unfold common. rewrite Hwf. cbn [andb].
+  destruct V; cbn [andb] in Hk.
+  - destruct (ty_any has_opt_member t) eqn:Ho; [discriminate|].
+    destruct (ty_any is_f128 t) eqn:Hf; [discriminate|].
+    repeat split; try reflexivity. apply negb_true_iff.
+    rewrite (ty_any_ext (cbad V1)
+      (fun t => ((is_union t || is_mutable t) || is_wstr t) || has_opt_member t)) by reflexivity.
+    now rewrite !ty_any_or, Hs1, Hs2, Hw, Ho.
+  - repeat split; try reflexivity; try discriminate. apply negb_true_iff.
+    rewrite (ty_any_ext (cbad V2)
+      (fun t => ((is_union t || is_mutable t) || is_wstr t) || (fun _ => false) t)) by reflexivity.
+    now rewrite !ty_any_or, Hs1, Hs2, Hw, ty_any_false.
+Qed.
+
+Theorem c10_outside_classes : forall V E t v,
+  is_aggr t = true -> wf_ty t = true -> stage2 t = true -> wt t v = true -> c10_class V t v = 0%N ->
+  encode V E t v = Ok (spec_encode V E t v) /\ decode t (spec_encode V E t v) = Ok v.
+Proof.
+  intros V E t v Ha Hwf Hs Hw Hk.
+  destruct (class0_common V t v Hwf Hs Hk) as [Hc [Hf Hn]].
+  split; [now apply code_eq_spec|now apply spec_decodable].
+Qed.
+
+(* XCDR1 float128: the two encoders still agree (only the READER is wrong, C09 class 2) *)
+Theorem c10_float128_bytes_agree : forall V E t v,
+  is_aggr t = true -> common V t = true -> wt t v = true -> val_nonascii_char v = false ->
+  encode V E t v = Ok (spec_encode V E t v).
+Proof. exact code_eq_spec. Qed.
